@@ -27,6 +27,9 @@ void free_svalue (svalue_t * v, const char* caller) {
     }
   else if (v->type & T_REFED)
     {
+#ifdef VERIF_SYNC_REFED
+      VERIF_SYNC_REFED (v);
+#endif
       if (!(--v->u.refed->ref))
         {
           switch (v->type)
@@ -95,6 +98,9 @@ void assign_svalue_no_free (svalue_t * to, svalue_t * from) {
     }
   else if (from->type & T_REFED)
     {
+#ifdef VERIF_SYNC_REFED
+      VERIF_SYNC_REFED (from);
+#endif
       from->u.refed->ref++;
     }
 }
